@@ -45,8 +45,16 @@ class NdArrayModel:
 
     @staticmethod
     def m_reshape(ex, o, shape):
+        if isinstance(shape, int) and shape == -1:
+            # a flat VIEW of the same buffer when the array is C-contiguous (numpy copies otherwise)
+            ex.__dict__.setdefault('np_calls', []).append(('reshape', o, (-1,)))
+            o2 = new_array(ex, ('flat',), o.f['pix'], o.f['flags'].f['writeable'], 'reshape', contig=True)
+            if o.f['contig'] is True:
+                o2.f['base'] = o
+            return o2
         ex.__dict__.setdefault('np_calls', []).append(('reshape', o, tuple(shape)))
         o2 = new_array(ex, tuple(shape), o.f['pix'], o.f['flags'].f['writeable'], 'reshape')
+        o2.f['base'] = o
         return o2
 
     @staticmethod
@@ -129,6 +137,16 @@ class NpModel:
         return NOTHANDLED
 
     @staticmethod
+    def m_ascontiguousarray(ex, o, a, dtype=None):
+        """the array itself when it already is C-contiguous, else a contiguous copy"""
+        c = a.f['contig']
+        if c is True or (c is not False and ex.decide(zbv(c))):
+            if c is not True:
+                a.f['contig'] = True
+            return a
+        return new_array(ex, a.f['shape'], a.f['pix'], True, 'copy', contig=True)
+
+    @staticmethod
     def m_frombuffer(ex, o, b, dtype=None):
         ex.__dict__.setdefault('np_calls', []).append(('frombuffer', b))
         if isinstance(b, Obj) and b.cls == 'blob':
@@ -207,6 +225,23 @@ class Cv2Model:
 
 def b_memoryview(ex, v):
     return v
+
+
+def shares_memory_with(part, arr):
+    """does a message part (blob / flat view / array) alias the buffer of `arr`?  bytes / bytearray objects are copies; views follow their base chain"""
+    seen = 0
+    cur = part
+    while isinstance(cur, Obj) and seen < 8:
+        seen += 1
+        if cur is arr:
+            return True
+        if cur.cls == 'flatview':
+            cur = cur.f['of']
+        elif cur.cls == 'ndarray':
+            cur = cur.f.get('base')
+        else:
+            return False
+    return False
 
 
 def b_bytearray(ex, v=None):
